@@ -61,7 +61,22 @@ def check_scenario(sc):
                 yield r
         tail = [eager] if sc.get('eager') else []
         tag = '/eager-consumer' if sc.get('eager') else ''
-        flow = core.Flow(core.from_state(st),
+        source = core.from_state(st)
+        cwd_before = os.getcwd()
+        if sc.get('redump'):
+            # what is dumped is an earlier dump loaded back: the incoming descriptor already carries sizes, hashes and counts
+            first = os.path.join(d, 'first')
+            core.Flow(core.from_state(st), core.dataflows.dump_to_path(first, format=fmt, add_filehash_to_path=filehash)).process()
+            source = core.dataflows.load(os.path.join(first, 'datapackage.json'))
+            tag = '/redump'
+        if sc.get('cwd_copy'):
+            # the current directory already holds a hashed copy of the same data (an earlier dump with out_path='.')
+            elsewhere = os.path.join(d, 'cwd')
+            os.makedirs(elsewhere)
+            os.chdir(elsewhere)
+            core.Flow(core.from_state(st), core.dataflows.dump_to_path('.', format=fmt, add_filehash_to_path=True)).process()
+            tag = '/cwd-holds-copy'
+        flow = core.Flow(source,
                          core.dataflows.dump_to_path(root, format=fmt, add_filehash_to_path=filehash, **kw), *tail)
         if sc.get('second_run'):
             # the same Flow (hence the same dumper object) has already been executed once; its output was removed since
@@ -69,8 +84,11 @@ def check_scenario(sc):
             flow.process()
             shutil.rmtree(root, ignore_errors=True)
             tag = '/second-execution'
-        with rec.active():
-            flow.process()
+        try:
+            with rec.active():
+                flow.process()
+        finally:
+            os.chdir(cwd_before)
         states = rec.crash_states()
         seen = set()
         for label, cs in states:
@@ -155,6 +173,11 @@ def scenarios(tier):
     for fmt in ('csv', 'json'):
         for sh in ([1, 1], [3, 0, 1]):
             out.append({'shape': sh, 'format': fmt, 'filehash': False, 'nested': False, 'second_run': True})
+    for fmt in ('csv', 'json'):
+        for sh in ([1], [3, 1]):
+            out.append({'shape': sh, 'format': fmt, 'filehash': False, 'nested': False, 'redump': True})
+            out.append({'shape': sh, 'format': fmt, 'filehash': True, 'nested': False, 'redump': True})
+            out.append({'shape': sh, 'format': fmt, 'filehash': True, 'nested': False, 'cwd_copy': True})
     # the dumper is not the last step and its consumer is eager
     for fmt in ('csv', 'json'):
         for sh in ([1], [1, 1], [3, 0, 1]):
@@ -181,5 +204,5 @@ def run(run):
 
 
 def replay(w):
-    sc = {k: w[k] for k in ('shape', 'format', 'filehash', 'nested', 'counters', 'eager', 'second_run') if k in w}
+    sc = {k: w[k] for k in ('shape', 'format', 'filehash', 'nested', 'counters', 'eager', 'second_run', 'redump', 'cwd_copy') if k in w}
     return check_scenario(sc)['viol']
